@@ -154,3 +154,61 @@ def r_badparam_order(cx):
               "cites the parameter as the value" % ("the two fields exchanged" if is_key(v[2][1]) else
                                                     "a first field that is not the key of the gamut entry"), cx.where(s.get("span")))
     cx.count("R-BADPARAM-ORDER", "rejections", n)
+
+
+_TRUNCATING = ("Zip<", "Take<", "TakeWhile<", "StepBy<", "Skip<", "SkipWhile<", "MapWhile<", "Filter<", "FilterMap<")
+
+
+@rule("R-SPLIT-EXHAUSTIVE", ["C16"])
+def r_split_exhaustive(cx):
+    """A malformed value is refused with BadParam, never silently repaired: where a user value is taken apart at a
+    separator (`,` between the elements of a series in ParsedParameters::new, `:` between degrees, minutes and seconds
+    in parse_sexagesimal), every part is looked at. (a) The splitter is `str::split`, which yields an (empty) part
+    behind a trailing separator - not `split_terminator`, `splitn` or `rsplitn`, which drop or merge parts, so that
+    `order=2,1,` or `push=` would be accepted as a shorter series. (b) A loop over the parts is not cut short by an
+    adaptor (zip with the slots to fill, take(3)): a fourth component of `1:30:36:59` must reach the code that refuses it."""
+    import pertuple
+    n = 0
+    for name, seps in ((K.PP + "::new", (",",)), ("math::angular::parse_sexagesimal", (":",))):
+        if not cx.f.has_fn(name):
+            cx.ob("R-SPLIT-EXHAUSTIVE", "%s/anchor" % name.rsplit("::", 1)[-1], False, "anchor-missing: %s" % name)
+            continue
+        f = cx.f.fn(name)
+        k = 0
+        for bb, t in f.calls():
+            c = f.callee(t) or ""
+            tail = c.rsplit("::", 1)[-1]
+            if not (c.startswith("core::str::<impl str>::") and ("split" in tail) and tail not in ("split_whitespace", "split_at", "split_once", "split_ascii_whitespace")):
+                continue
+            a = f.arg_terms(bb)
+            if len(a) < 2:
+                continue
+            pat = mir.strip_refs(a[-1])
+            if not (pat[0] == "const" and isinstance(pat[2], tuple) and pat[2][0] in ("char", "str") and pat[2][1] in seps):
+                continue
+            n += 1
+            ok = tail == "split"
+            short = name.rsplit("::", 1)[-1] if "angular" in name else "ParsedParameters::new"
+            cx.ob("R-SPLIT-EXHAUSTIVE", "%s/split%d" % (short, k), ok,
+                  "%s takes the value apart with str::split: every part, an empty last one included, is seen" % short if ok else
+                  "%s takes a value apart at `%s` with `%s`, which does not yield every part (a trailing separator, or the "
+                  "parts beyond a limit, go unnoticed): a malformed value is accepted as a shorter one instead of being "
+                  "refused" % (short, pat[2][1], tail), cx.where(t["span"]))
+            # a loop over these parts sees all of them
+            for lp in f.loops():
+                x = pertuple.iterator_entry_value(f, lp)
+                if x is None:
+                    continue
+                hit = []
+                mir.walk(x, lambda y: (hit.append(1) if y[0] == "call" and len(y) > 3 and y[3] == bb else None) or True)
+                if not hit:
+                    continue
+                full = f.term(lp.header).get("callee_full", "")
+                cut = [w for w in _TRUNCATING if w in full.split(" as ", 1)[0]]
+                cx.ob("R-SPLIT-EXHAUSTIVE", "%s/split%d/loop" % (short, k), not cut,
+                      "%s: the loop over the parts visits all of them" % short if not cut else
+                      "%s: the loop over the parts of the value is cut short by `%s`: parts beyond the expected number are "
+                      "never looked at, so an over-long value is accepted as its first parts" % (short, cut[0].rstrip("<")),
+                      cx.where(f.term(lp.header)["span"]))
+            k += 1
+    cx.count("R-SPLIT-EXHAUSTIVE", "splits", n)
